@@ -3,6 +3,9 @@
 (* Linearizability of real histories of graph.Instance (C13) against the   *)
 (* sequential object (L1 of ParamServer):                                  *)
 (*    upd(p,v) -> "ok"     get(p) -> "p<p>:<v>"     art(i) -> Term(prod i) *)
+(*    updbad(p) -> "ERR" (valid JSON of the wrong shape; no effect)        *)
+(* initial values come from the reset line (parameter 2 starts at its      *)
+(* command-line flag value, not at its default)                            *)
 (* Trace lines (ordered by one atomic counter):                            *)
 (*   {"k":"reset","wire":[..],"prod":[..],"nc":..,"h":..}                  *)
 (*   {"k":"inv","c":..,"op":..,"p":..,"v":..}   {"k":"resp","c":..,"res":..}*)
@@ -48,7 +51,7 @@ TReset ==
     /\ Mark
     /\ gwire' = [n \in Nodes |-> LET r == Line.wire[n - NP] IN [a |-> r.a, b |-> r.b, arr |-> r.arr]]
     /\ gprod' = Line.prod
-    /\ pval' = [p \in Params |-> 1] /\ pend' = [c \in 1..MaxC |-> NoPend]
+    /\ pval' = [p \in Params |-> Line.init[p]] /\ pend' = [c \in 1..MaxC |-> NoPend]
     /\ clean' = TRUE /\ hno' = hno + 1 /\ l' = l + 1
 
 TInv ==
@@ -62,6 +65,8 @@ Lin(c) ==
     /\ LET o == pend[c] IN
        \/ /\ o.op = "upd" /\ pval' = [pval EXCEPT ![o.p] = o.v]
           /\ pend' = [pend EXCEPT ![c].lin = TRUE, ![c].res = "ok"]
+       \/ /\ o.op = "updbad" /\ UNCHANGED pval        \* a rejected update changes nothing
+          /\ pend' = [pend EXCEPT ![c].lin = TRUE, ![c].res = "ERR"]
        \/ /\ o.op = "get" /\ UNCHANGED pval
           /\ pend' = [pend EXCEPT ![c].lin = TRUE, ![c].res = IF o.p = 3 THEN VecTerm(pval[3]) ELSE ParamTerm(o.p, pval[o.p])]
        \/ /\ o.op = "art" /\ UNCHANGED pval
